@@ -215,8 +215,17 @@ func main() {
 		maxNodes = 4
 	}
 	arrs := arrangements(maxNodes)
+	if !r.Thorough() {
+		// quick also covers the 4-node rings in which every node owns one token (rack repeats with
+		// 3+1 nodes per rack need four nodes in a datacenter); thorough covers all 4-node rings
+		for _, a := range arrangements(4) {
+			if a.n == 4 && len(a.owners) == 4 {
+				arrs = append(arrs, a)
+			}
+		}
+	}
 	strats := strategies()
-	r.SetRule(fmt.Sprintf("rings of 1..%d nodes, each owning 1 or 2 tokens, every ownership sequence around the ring (nodes numbered by first appearance: %d sequences); "+
+	r.SetRule(fmt.Sprintf("rings of 1..%d nodes, each owning 1 or 2 tokens, every ownership sequence around the ring (nodes numbered by first appearance; quick adds the 4-node rings with one token per node: %d sequences); "+
 		"every labelling of the nodes over {dc1,dc2}x{r1,r2}; SimpleStrategy rf 0..4 and NetworkTopologyStrategy with dc1, dc2 each absent/0/1/2/3 and a DC the ring lacks absent/1/3 (%d settings); "+
 		"Murmur3, Random and ByteOrdered rings; lookup tokens equal to every ring token, between every neighbouring pair, below the smallest and above the largest. "+
 		"One evaluation = one replica map built or one lookup in it; a case (ring, labelling, setting) is non-trivial when Cassandra places at least one replica for some token.", maxNodes, len(arrs), len(strats)))
